@@ -114,7 +114,11 @@ def judgeC13 (op : RegsOp) (out : String) : Expect :=
 
 def RegsOp.judge (prop : String) (op : RegsOp) (out : String) : Expect :=
   if prop == "C04" then judgeC04 op out
-  else if prop == "C13" then judgeC13 op out
+  else if prop == "C13" then
+    -- "the same results": the result of a read is the decoding of its registers, whatever was read or configured before
+    match judgeC13 op out with
+    | .pred true _ => judgeC04 op out
+    | e => e
   else .noPanic
 
 end Modbus.Driver
